@@ -121,6 +121,7 @@ reg("C08", exc_ops=set(), nontrivial=nt_links, hook="welinks", obs_fail=False,
     profile={"raw": 0.0, "long": 0.1, "nlrus": 12, "homelinks": 0.3, "prefixlinks": 0.4, "siblinks": 0.3}, n=(130, 1000), steps=(14, 20),
     title="Per-webentity link queries")
 reg("C09", exc_ops=set(), nontrivial=nt_pages, hook="pagination", obs_fail=False,
+    mc=[("core", 4, 5), ("pag", None, None)],
     weights={"Paginate": 40, "AddPage": 30, "AddPages": 8, "CreateWe": 8, "AddPrefix": 8, "AddLinks": 4,
              "IndexBatchCrawl": 4, "Clear": 0, "DeleteWe": 2, "RemovePrefix": 2, "MovePrefix": 2},
     profile={"raw": 0.0, "long": 0.2, "nlrus": 18, "extend": 0.3, "continue": 0.55, "concentrate": 1,
